@@ -3,6 +3,8 @@
 import json, os, glob, re
 V = os.path.dirname(os.path.dirname(os.path.abspath(__file__)))
 rows = []
+np = os.path.join(V, 'seeded', 'NOTES.json')
+notes = json.load(open(np)) if os.path.exists(np) else {}
 for d in sorted(glob.glob(os.path.join(V, "seeded", "*", ""))):
     mp = os.path.join(d, "meta.json")
     if not os.path.exists(mp):
@@ -16,13 +18,13 @@ for d in sorted(glob.glob(os.path.join(V, "seeded", "*", ""))):
         fc = re.findall(r"failed check: (.*?) in ", txt)
         rcm = m.get("checks_run", {}).get(prop, "")
         caught.append(f"{prop}: {'**caught**' if v else 'missed'} ({rcm}" + (f"; e.g. {fc[0][:90]}" if fc else "") + ")")
-    rows.append((m.get("name"), m.get("breaks", ""), m.get("needs", ""), m.get("suite_with_change", ""), m.get("demo_with_change", "")[13:40],
-                 m.get("demo_without_change", "")[13:40], "<br>".join(caught), m.get("change", "")))
+    rows.append((m.get("name"), m.get("breaks", ""), m.get("needs", ""), m.get("suite_with_change", ""), m.get("demo_with_change", "")[:70],
+                 m.get("demo_without_change", "")[:50], "<br>".join(caught), m.get("change", ""), notes.get(m.get("name"), "")))
 out = ["# Seeded changes\n",
        "Each change was written by a fresh sub-agent that saw only the text of one property and its own scratch worktree; it compiles, keeps the",
        "repository's test suite green and breaks the property.  `bin/seed_verify.sh` re-confirmed each one in a fresh worktree of /repo HEAD",
        "(suite with the change; demo with and without the change) and ran the listed checks with `VERIF_REPO=<worktree>`.\n",
-       "| seed | breaks | needs | suite with change | demo with | demo without | checks | change |", "|---|---|---|---|---|---|---|---|"]
+       "| seed | breaks | needs | suite with change | demo with | demo without | checks | change | what was strengthened |", "|---|---|---|---|---|---|---|---|---|"]
 for r in rows:
     out.append("| " + " | ".join(str(x).replace("|", "/") for x in r) + " |")
 open(os.path.join(V, "seeded", "README.md"), "w").write("\n".join(out) + "\n")
